@@ -450,8 +450,8 @@ CaseRecord(f) ==
       mvw == [q \in DOMAIN Reqs |-> IdealVerdictsH(Lw, T, Res, Reqs[q], [j \in DOMAIN keepIdx |-> EngineHits(f, keepIdx[j], q)])]
       base0 == [k |-> "net", u |-> U, mono |-> (U \in {"c01", "c01d", "c05", "rand"}), rules |-> [i \in DOMAIN L |-> RuleText(L[i])], tags |-> T,
                v |-> iv, csp |-> ic,
-               \* check_network_request_subset under the three other flag combinations (universe c01 only)
-               subset |-> IF U = "c01"
+               \* check_network_request_subset under the three other flag combinations (universes c01 and c07)
+               subset |-> IF U \in {"c01", "c07"}
                           THEN [q \in DOMAIN Reqs |->
                                   [fl \in {<<TRUE, FALSE>>, <<FALSE, TRUE>>, <<TRUE, TRUE>>} |->
                                      UNION {VerdictsSubset(L, hv, T, Res, Reqs[q], fl[1], fl[2]) :
